@@ -428,11 +428,18 @@ where
         let inner = corosensei::Coroutine::with_stack(stack, move |y, p| {
             catch!(
                 move || {
+                    // clean the thread's current suspender even if `f` unwinds, a stale
+                    // entry would point into this coroutine's dead stack
+                    struct CurrentGuard<Param, Yield>(std::marker::PhantomData<(Param, Yield)>);
+                    impl<Param, Yield> Drop for CurrentGuard<Param, Yield> {
+                        fn drop(&mut self) {
+                            Suspender::<Param, Yield>::clean_current();
+                        }
+                    }
                     let suspender = Suspender::new(y);
                     Suspender::<Param, Yield>::init_current(&suspender);
-                    let r = f(&suspender, p);
-                    Suspender::<Param, Yield>::clean_current();
-                    r
+                    let _guard = CurrentGuard::<Param, Yield>(std::marker::PhantomData);
+                    f(&suspender, p)
                 },
                 format!("coroutine {co_name} failed without message"),
                 co_name
